@@ -225,5 +225,6 @@ pub fn run(tier: Tier) -> (Stats, VioSet) {
         stats.merge(&s);
         vios.merge(v);
     }
+    stats.notes.push("sweeps: with-replacement methods (and the one-shot decode_without_bom_handling) against the manual procedure on the without-replacement methods over the C01 stream families and error-dense heads (40 decoders, both sinks) and over every scalar value plus the NCR length ladder at every capacity (encoders); implementation against implementation".into());
     (stats, vios)
 }
